@@ -1,4 +1,6 @@
-import Dashu.Proofs.Float.FBigOps
+import Dashu.Proofs.Float.Unobservable
+import Dashu.Proofs.Float.Review
+import Dashu.Proofs.Float.Closing
 /-
   C10 — Rounding to integers or to fewer digits picks the mathematically right neighbour; the two
   public rounding primitives follow the six mode definitions.
@@ -95,14 +97,31 @@ theorem with_precision_contract (B : Nat) (hB : 2 ≤ B) (m : Mode) (c : Coarse)
     Contract B m p (x.repr.toRat B) ((fWithPrecision B m c x p).1.repr.toRat B) (fWithPrecision B m c x p).2 ∧
     (fWithPrecision B m c x p).1.prec = p := by
   unfold fWithPrecision
-  by_cases h : x.prec > p
+  by_cases h : x.prec > p ∨ (x.prec = 0 ∧ p > 0)
   · simp only [h, if_true, and_true]
     exact reprRound_contract B hB m c hc p hp x.repr hn
   · simp only [h, if_false, and_true]
     exact contract_exact B m p _
 
-/-- `with_precision(0)` (unlimited) and a precision that is not smaller keep the value, `Exact` -/
-theorem with_precision_widen (B : Nat) (m : Mode) (c : Coarse) (x : FBigM) (p : Nat) (h : p = 0 ∨ x.prec ≤ p) :
+/-- **the invariant `with_precision` establishes**: for `p ≥ 1` the result has at most `p` significant digits
+    (never `p+1`: a carry into a new digit normalises to a shorter significand), whatever the source
+    precision — limited (`digits ≤ x.prec`, the `FBig` invariant `hinv`) or unlimited (`x.prec = 0`, any
+    number of digits; fix ee15d7b).  `Contract` alone does not say this. -/
+theorem with_precision_digits (B : Nat) (hB : 2 ≤ B) (m : Mode) (c : Coarse) (x : FBigM) (p : Nat) (hp : 1 ≤ p)
+    (hinv : x.prec = 0 ∨ x.repr.digits B ≤ x.prec) :
+    (fWithPrecision B m c x p).1.repr.digits B ≤ p ∧ (fWithPrecision B m c x p).1.prec = p := by
+  unfold fWithPrecision
+  by_cases h : x.prec > p ∨ (x.prec = 0 ∧ p > 0)
+  · simp only [h, if_true, and_true]
+    exact reprRound_digits_le B hB m c p hp x.repr
+  · simp only [h, if_false, and_true]
+    omega
+
+/-- `with_precision(0)` (unlimited) and a precision that is not smaller keep the value, `Exact`
+    (a source precision of `0` is *unlimited*, i.e. larger than every `p ≥ 1`: such a number is rounded,
+    fix ee15d7b) -/
+theorem with_precision_widen (B : Nat) (m : Mode) (c : Coarse) (x : FBigM) (p : Nat)
+    (h : p = 0 ∨ (0 < x.prec ∧ x.prec ≤ p)) :
     fWithPrecision B m c x p = (⟨x.repr, p⟩, none) := by
   unfold fWithPrecision
   rcases h with h | h
@@ -110,7 +129,7 @@ theorem with_precision_widen (B : Nat) (m : Mode) (c : Coarse) (x : FBigM) (p : 
     by_cases h0 : x.prec > 0
     · simp [h0, reprRound_unlimited]
     · simp [h0]
-  · have : ¬ x.prec > p := by omega
+  · have : ¬ (x.prec > p ∨ (x.prec = 0 ∧ p > 0)) := by omega
     simp [this]
 
 /-! ### rounding to integers (`x = s / D`, `D = B^(-exp)`, `exp < 0`) -/
@@ -147,6 +166,14 @@ theorem to_int_correct (m : Mode) :
   fToInt_spec B hB c hc dub hdub x he m
 
 end
+
+/-- **the flag of `to_int` tells the truth**: for a normalised float with fractional digits the result `t`
+    is really inexact (`t·D ≠ s`), within one unit (one half for the nearest modes) on the side the mode
+    prescribes, and `AddOne` ⇒ `t > x`, `SubOne` ⇒ `t < x` (integer-scaled contract, `D = B^(-exp)`) -/
+theorem to_int_contract (B : Nat) (hB : 2 ≤ B) (m : Mode) (c : Coarse) (hc : CoarseSound c) (dub : Int → Nat)
+    (hdub : DubSound B dub) (x : FBigM) (he : x.repr.exp < 0) (hn : x.repr.signif % (B : Int) ≠ 0) :
+    IContract m (pointUnit B x.repr) x.repr.signif ((fToInt B m c dub x).1 * pointUnit B x.repr) (fToInt B m c dub x).2 :=
+  fToInt_contract B hB m c hc dub hdub x he hn
 
 /-- the value of `x` is `s / D` -/
 theorem value_is_s_over_D (B : Nat) (hB : 2 ≤ B) (r : FRepr) (he : r.exp < 0) :
@@ -188,6 +215,40 @@ theorem round_small_regression :
   unfold IsNearestAway
   norm_num
 
+/-! ### the `f32` estimate is not observable
+
+For every sound `digits_ub` estimator (and sound coarse test) each rounding method returns exactly — value
+and precision — what its general path returns, and the general paths (`fTruncGen`, `fFractGen`,
+`roundGen`) do not consult the estimate.  Hence std and no_std builds (different estimators) agree.
+`hfix`: the operand is in the normal form `Repr::new` produces. -/
+
+theorem estimate_unobservable (B : Nat) (hB : 2 ≤ B) (c : Coarse) (hc : CoarseSound c) (dub : Int → Nat)
+    (hdub : DubSound B dub) (x : FBigM) (hfix : FRepr.new B x.repr.signif x.repr.exp = x.repr) :
+    fTrunc B dub x = fTruncGen B x ∧ fFract B dub x = fFractGen B x ∧
+    fSplitAtPoint B dub x = (fTruncGen B x, fFractGen B x) ∧
+    (x.repr.exp < 0 → fFloor B c dub x = roundGen B .down c x ∧ fRound B c dub x = roundGen B .halfAway c x ∧
+      (x.repr.signif ≠ 0 → fCeil B c dub x = roundGen B .up c x)) :=
+  ⟨fTrunc_eq_gen B hB dub hdub x, fFract_eq_gen B hB dub hdub x hfix, fSplit_eq_gen B hB dub hdub x hfix,
+   fun he => ⟨fFloor_eq_gen B hB dub hdub x c he, fRound_eq_gen B hB dub hdub x c hc he,
+     fun hs0 => fCeil_eq_gen B hB dub hdub x c he hs0⟩⟩
+
+/-- two sound estimators give the same `trunc`, `fract`, `split_at_point` (e.g. the std `log2f` one and
+    the no_std table one) -/
+theorem estimators_agree (B : Nat) (hB : 2 ≤ B) (dub dub' : Int → Nat) (hdub : DubSound B dub)
+    (hdub' : DubSound B dub') (x : FBigM) (hfix : FRepr.new B x.repr.signif x.repr.exp = x.repr) :
+    fTrunc B dub x = fTrunc B dub' x ∧ fFract B dub x = fFract B dub' x ∧
+    fSplitAtPoint B dub x = fSplitAtPoint B dub' x := by
+  refine ⟨?_, ?_, ?_⟩
+  · rw [fTrunc_eq_gen B hB dub hdub x, fTrunc_eq_gen B hB dub' hdub' x]
+  · rw [fFract_eq_gen B hB dub hdub x hfix, fFract_eq_gen B hB dub' hdub' x hfix]
+  · rw [fSplit_eq_gen B hB dub hdub x hfix, fSplit_eq_gen B hB dub' hdub' x hfix]
+
+-- the case found by the std / no_std comparison: 0x50f·36⁻⁴ at precision 2; with an estimate that fires
+-- (exact digit count 2) and one that does not (3) the result is the same
+example : fSplitAtPoint 36 (digitsI 36) ⟨⟨0x50f, -4⟩, 2⟩ = fSplitAtPoint 36 (fun v => digitsI 36 v + 1) ⟨⟨0x50f, -4⟩, 2⟩ ∧
+    smallerThanOne (digitsI 36) ⟨0x50f, -4⟩ = true ∧ smallerThanOne (fun v => digitsI 36 v + 1) ⟨0x50f, -4⟩ = false := by
+  decide +kernel
+
 /-! ### rationals (`rational/src/round.rs`, `num / den`, `den > 0`) -/
 
 theorem rbig_trunc_correct (num : Int) (den : Nat) (hden : 0 < den) : IsTowardZero num den (qTrunc num den) :=
@@ -214,6 +275,20 @@ example : roundFract 10 .halfEven coarseNone 2 5 1 = .NoOp ∧ roundFract 10 .ha
 -- repr_round of 12345·10⁻² to 3 digits, HalfAway: 123|45 → 123, NoOp (a normalised 5-digit operand)
 example : Normalized 10 ⟨12345, -2⟩ ∧ reprRound 10 .halfAway coarseNone 3 ⟨12345, -2⟩ = (⟨123, 0⟩, some .NoOp) := by
   refine ⟨by unfold Normalized; decide, by decide +kernel⟩
+-- hypotheses of the integer roundings / `to_int_contract` on a concrete value: −12.75 = −1275·10⁻² at 5 digits
+example : (⟨⟨-1275, -2⟩, 5⟩ : FBigM).repr.exp < 0 ∧ (⟨⟨-1275, -2⟩, 5⟩ : FBigM).repr.signif % ((10 : Nat) : Int) ≠ 0 ∧
+    fToInt 10 .halfEven coarseNone (digitsI 10) ⟨⟨-1275, -2⟩, 5⟩ = (-13, some .SubOne) ∧
+    fFloor 10 coarseNone (digitsI 10) ⟨⟨-1275, -2⟩, 5⟩ = ⟨⟨-13, 0⟩, 3⟩ ∧
+    fCeil 10 coarseNone (digitsI 10) ⟨⟨-1275, -2⟩, 5⟩ = ⟨⟨-12, 0⟩, 3⟩ ∧
+    fTrunc 10 (digitsI 10) ⟨⟨-1275, -2⟩, 5⟩ = ⟨⟨-12, 0⟩, 3⟩ := by decide +kernel
+-- hypotheses of `round_ratio_follows_mode`: a negative denominator and a tie, 1 + (−1)/(−2) = 1.5
+example : (-2 : Int) ≠ 0 ∧ (-1 : Int) ≠ 0 ∧ |(-1 : Int)| < |(-2 : Int)| ∧
+    roundRatio .halfEven 1 (-1) (-2) = .AddOne ∧ roundRatio .zero 1 (-1) (-2) = .NoOp := by
+  refine ⟨by decide, by decide, by decide, by decide +kernel, by decide +kernel⟩
+-- `with_precision_digits` on the input that exposed ee15d7b: 1234567 with unlimited precision to 3 digits
+example : fWithPrecision 10 .halfAway coarseNone ⟨⟨1234567, 0⟩, 0⟩ 3 = (⟨⟨123, 4⟩, 3⟩, some .NoOp) ∧
+    ((⟨⟨1234567, 0⟩, 0⟩ : FBigM).prec = 0 ∨ (⟨⟨1234567, 0⟩, 0⟩ : FBigM).repr.digits 10 ≤ 0) := by
+  refine ⟨by decide +kernel, Or.inl rfl⟩
 -- a float below 1/B² with a short precision, the case of the property text
 example : smallerThanOne (digitsI 10) ⟨99, -4⟩ = true := by decide +kernel
 
